@@ -196,6 +196,24 @@ Theorem C18_disk_list_spec : forall fnm fl disk sub,
   filter_path fnm fl disk sub = negb (existsb (fun f => fnm false (f_pattern f) disk) fl).
 Proof. exact disk_list_spec. Qed.
 
+(* --- the rule named by "Excluding ... for rule '...'" (the reason out-parameter of filter_element) ------------- *)
+Theorem C18_filter_reason_result : forall fnm fl disk sub isdir def,
+  fst (filter_reason fnm fl disk sub isdir def) = filter_element fnm fl disk sub isdir def.
+Proof. exact filter_reason_result. Qed.
+Theorem C18_filter_reason_spec : forall fnm fl disk sub isdir def,
+  fst (filter_reason fnm fl disk sub isdir def) = true ->
+  snd (filter_reason fnm fl disk sub isdir def) =
+  match first_match_idx fnm O fl disk sub isdir with
+  | Some k => Some k
+  | None => match fl with [] => None | _ :: _ => Some (length fl - 1)%nat end
+  end.
+Proof. exact filter_reason_spec. Qed.
+Theorem C18_scan_why_skips : forall fnm nohidden contents fl disk dir sub name isdir,
+  scan_skips fnm nohidden contents fl disk dir sub name isdir = true <->
+  scan_why fnm nohidden contents fl disk dir sub name isdir <> WKeep.
+Proof. exact scan_why_skips. Qed.
+Print Assumptions C18_filter_reason_spec.
+
 (* --- which parity files a selection leaves alone (state_filter; manual -d: "You can also specify parity disks") ---
    without -d: any -f or -m excludes every parity file ("nothing outside the selection is written"), -e alone does not;
    with -d: a parity file is kept iff a -d name matches its name.  The check compares this rule with the real
